@@ -323,7 +323,7 @@ pub fn run_json_sweeps(ctx: &Ctx, part: &str, sweeps: &[JsonSweep], pairs: bool,
       None => {
         let t = it.seed.text();
         let out = crate::run1(ctx, e, In::S(&t), local, true);
-        if !out.starts_with("acc") {
+        if !out.starts_with("acc") && out != "PANIC" {
           ctx.require(false, &format!("json seed of {} is not accepted by its entry point ({out}): {}", it.entry, &t[..t.len().min(200)]));
         }
         n += 1;
@@ -656,7 +656,7 @@ pub fn entry_accessors(e: &StatusList2021Entry) {
   bb(Status::from(e.clone()).to_json().is_ok());
 }
 
-static STATUS_LIST_CRED: once_cell::sync::Lazy<StatusList2021Credential> = once_cell::sync::Lazy::new(|| StatusList2021Credential::from_json(SEED_STATUS_LIST_CREDENTIAL).expect("seed status list credential"));
+static STATUS_LIST_CRED: once_cell::sync::Lazy<StatusList2021Credential> = once_cell::sync::Lazy::new(|| StatusList2021Credential::from_json(SEED_STATUS_LIST_CREDENTIAL.as_str()).expect("seed status list credential"));
 static ISSUER_DOC: once_cell::sync::Lazy<CoreDocument> = once_cell::sync::Lazy::new(|| CoreDocument::from_json(SEED_CORE_DOC).expect("seed doc"));
 
 pub fn credential_accessors(c: &Credential) {
@@ -1016,8 +1016,18 @@ pub const SEED_CREDENTIAL: &str = r##"{"@context":["https://www.w3.org/2018/cred
  "proof":{"type":"RsaSignature2018","created":"2017-06-18T21:19:10Z"},"custom":"x"}"##;
 pub const SEED_CREDENTIAL_SL: &str = r##"{"@context":"https://www.w3.org/2018/credentials/v1","type":["VerifiableCredential"],"credentialSubject":[{"id":"did:example:subject"},{"a":1}],"issuer":"did:example:123","issuanceDate":"2010-01-01T19:23:24Z",
  "credentialStatus":{"id":"https://example.com/credentials/status/3#94567","type":"StatusList2021Entry","statusPurpose":"revocation","statusListIndex":"94567","statusListCredential":"https://example.com/credentials/status/3"}}"##;
-pub const SEED_STATUS_LIST_CREDENTIAL: &str = r##"{"@context":["https://www.w3.org/2018/credentials/v1","https://w3id.org/vc/status-list/2021/v1"],"id":"https://example.com/credentials/status/3","type":["VerifiableCredential","StatusList2021Credential"],"issuer":"did:example:123","issuanceDate":"2021-04-05T14:27:40Z",
- "credentialSubject":{"id":"https://example.com/credentials/status/3","type":"StatusList2021","statusPurpose":"revocation","encodedList":"H4sIAAAAAAAAA-3BMQEAAADCoPVPbQwfoAAAAAAAAAAAAAAAAAAAAIC3AYbSVKsAQAAA"}}"##;
+/// (the encoded list is produced by the library itself: the W3C example value is base64url and is not accepted
+/// by `try_from_encoded_str`, which would leave every list accessor behind an early error)
+pub static SEED_STATUS_LIST_CREDENTIAL: once_cell::sync::Lazy<String> = once_cell::sync::Lazy::new(|| {
+  let mut l = identity_credential::revocation::status_list_2021::StatusList2021::default();
+  l.set(42, true).unwrap();
+  l.set(94567, true).unwrap();
+  format!(
+    r##"{{"@context":["https://www.w3.org/2018/credentials/v1","https://w3id.org/vc/status-list/2021/v1"],"id":"https://example.com/credentials/status/3","type":["VerifiableCredential","StatusList2021Credential"],"issuer":"did:example:123","issuanceDate":"2021-04-05T14:27:40Z",
+ "credentialSubject":{{"id":"https://example.com/credentials/status/3","type":"StatusList2021","statusPurpose":"revocation","encodedList":"{}"}}}}"##,
+    l.into_encoded_str()
+  )
+});
 pub const SEED_PRESENTATION: &str = r##"{"@context":"https://www.w3.org/2018/credentials/v1","id":"https://example.org/credentials/3732","type":"VerifiablePresentation","verifiableCredential":["eyJhbGciOiJFZERTQSJ9.e30.AAAA","a.b.c"],"holder":"did:example:holder","refreshService":{"id":"https://example.edu/refresh/3732","type":"ManualRefreshService2018"},"termsOfUse":{"type":"IssuerPolicy"},"proof":{"type":"x"},"p":1}"##;
 pub fn seed_presentation_embedded() -> String {
   format!(r##"{{"@context":"https://www.w3.org/2018/credentials/v1","type":"VerifiablePresentation","verifiableCredential":[{SEED_CREDENTIAL_SL}],"holder":"did:example:holder"}}"##)
@@ -1054,17 +1064,20 @@ pub fn generate(ctx: &Ctx) {
     JsonSweep { entry: "VerificationMethod::from_json", seeds: s(&[SEED_METHOD_JWK, SEED_METHOD_MB, SEED_METHOD_B58, SEED_METHOD_CUSTOM]) },
     JsonSweep { entry: "MethodRef::from_json", seeds: s(&[SEED_METHOD_MB, r##""did:example:123#k""##]) },
     JsonSweep { entry: "Service::from_json", seeds: s(&[SEED_SERVICE_REV, SEED_SERVICE_LD, SEED_SERVICE_LD_ONE, SEED_SERVICE_LVP]) },
-    JsonSweep { entry: "Credential::from_json", seeds: s(&[SEED_CREDENTIAL, SEED_CREDENTIAL_SL, SEED_STATUS_LIST_CREDENTIAL]) },
+    JsonSweep { entry: "Credential::from_json", seeds: s(&[SEED_CREDENTIAL, SEED_CREDENTIAL_SL, &SEED_STATUS_LIST_CREDENTIAL]) },
     JsonSweep { entry: "Presentation<Jwt>::from_json", seeds: s(&[SEED_PRESENTATION]) },
     JsonSweep { entry: "Presentation<Credential>::from_json", seeds: vec![seed_presentation_embedded()] },
     JsonSweep { entry: "Status::from_json", seeds: s(&[SEED_STATUS_RB, SEED_STATUS_SL, SEED_STATUS_RT]) },
     JsonSweep { entry: "StatusList2021Entry::from_json", seeds: s(&[SEED_STATUS_SL, SEED_ENTRY_NUM]) },
-    JsonSweep { entry: "StatusList2021Credential::from_json", seeds: s(&[SEED_STATUS_LIST_CREDENTIAL]) },
+    JsonSweep { entry: "StatusList2021Credential::from_json", seeds: s(&[&SEED_STATUS_LIST_CREDENTIAL]) },
     JsonSweep { entry: "validation/verification options::from_json", seeds: s(&[SEED_OPTIONS_CRED, SEED_OPTIONS_PRES, SEED_OPTIONS_KB, SEED_OPTIONS_JWTP, "{}"]) },
     JsonSweep { entry: "Duration::from_json", seeds: s(&["[1,2]", "[-62167219200,999999999]"]) },
     JsonSweep { entry: "sd_jwt_vc metadata::from_json", seeds: s(&[SEED_TYPE_METADATA, SEED_TYPE_METADATA_URI, SEED_CLAIM_METADATA, SEED_ISSUER_METADATA, SEED_ISSUER_METADATA_URI]) },
     JsonSweep { entry: "DomainLinkageConfiguration::from_json", seeds: s(&[SEED_DOMAIN_LINKAGE]) },
   ];
+  // vacuity guards on the fixtures behind the accessor stage
+  ctx.require(STATUS_LIST_CRED.entry(94567).is_ok() && STATUS_LIST_CRED.entry(0).is_ok(), "seed status-list credential: the encoded list does not decode");
+  ctx.require(ISSUER_DOC.resolve_service("#rev").map(|s| RevocationBitmap::try_from(s).is_ok()).unwrap_or(false), "seed issuer document: the revocation bitmap service does not decode");
   // pairs (thorough): the second mutation ranges over the value-replacing and structural mutations that are
   // cheap to parse; the long-string and deep-nest mutations stay first-only.
   let pair_mutations: Vec<usize> = (0..N_MUT).filter(|m| ![22usize, 26].contains(m)).collect();
